@@ -66,7 +66,8 @@ def make_sender(w, case, out):
     msg = case.get('msg', MSS)
     flow = Flow(flow_id=case.get('fid', 1), src='h0', dst='h1', start_time=case.get('start', 0) or None,
                 finish_time=None if case.get('no_finish') else case.get('finish', 1e12), size=size,
-                arrival_dist=(lambda: pace) if pace else None, size_dist=(lambda: msg) if pace else None)
+                arrival_dist=(lambda: pace) if pace else None,
+                size_dist=(lambda: msg) if pace else ((lambda: case['chunk']) if case.get('chunk') else None))
     if case.get('cc', 'reno') == 'cubic':
         cc = TCPCubic()
     else:
